@@ -141,7 +141,9 @@ func (r *Rng) limbPattern() *big.Int {
 	v := new(big.Int)
 	for i := 0; i < 4; i++ {
 		var w uint64
-		switch r.Intn(7) {
+		switch r.Intn(8) {
+		case 7:
+			w = r.HalfWord()
 		case 0:
 			w = 0
 		case 1:
@@ -434,4 +436,33 @@ func (r *Rng) ResonantWide(l int, c uint64) []byte {
 		}
 	}
 	return out
+}
+
+// HalfWord returns a non-zero 64-bit word whose 32-bit halves are related:
+// they sum to 2^32 (so a 32-bit fold by addition vanishes), are equal (a fold by
+// XOR vanishes), are complements, or one of them is zero / all ones.  Code that
+// handles 64-bit words as pairs of 32-bit registers distinguishes these.
+func (r *Rng) HalfWord() uint64 {
+	lo := uint32(r.U64())
+	if lo == 0 {
+		lo = 1
+	}
+	switch r.Intn(10) {
+	case 0, 1, 2:
+		return uint64(-lo)<<32 | uint64(lo) // hi + lo = 2^32
+	case 3:
+		return 0x8000000080000000
+	case 4:
+		return 0x00000001ffffffff
+	case 5:
+		return uint64(lo)<<32 | uint64(lo)
+	case 6:
+		return uint64(^lo)<<32 | uint64(lo)
+	case 7:
+		return uint64(lo) << 32
+	case 8:
+		return uint64(lo)
+	default:
+		return 0xffffffff00000000 | uint64(lo)
+	}
 }
